@@ -7,6 +7,8 @@ func init() {
 			"R3.1 the printer-side precedence function (folded by constant propagation for every token constant) equals the parser's binding-power table entry by entry, and the atomic level is above every binding power; " +
 			"R3.2 every expression node type reports the level at which the parser produces it (infix entry -> binding power of its token; prefix operator -> the level its operand is parsed at; self-delimiting prefix forms -> atomic); " +
 			"R3.3 in every operator printer each operand (derived from the parse method: the left parameter, or a sub-parse above the lowest level) is written inside parentheses controlled by a pure comparison of the operand's level with the node's level, which is evaluated over ALL orderings of levels (finite) against the requirement 'left: child < own; right operand of an infix node: child <= own; prefix operand: child < own', with '(' and ')' under the same condition and enclosing the operand. " +
+			"R3.4 no two lexemes that the printers can write next to each other (FIRST/LAST sets over all node types that can fill each slot) fuse into another token, except where the writer's separator guard, folded on that byte pair, inserts a space (the defect this rule found, '-' '-x' printed as '--x', is repaired by a fix: commit); " +
+			"R3.5 the printer writes the tokens of every parse path in the order the parser consumed them, so re-parsing meets the same token sequence. " +
 			"A pass means these necessary conditions hold for every path/ordering; it does NOT show shape equality after re-parse.",
 		notDecided: []string{"equality of tree shapes after print+parse (needs running both)", "statement-start ambiguities of programmatic trees ('{' / 'function' leading an expression statement)", "callee/object operands looser than call level (outside the property's quantifier)"},
 	})
@@ -23,4 +25,15 @@ func runC03(c *Ctx) {
 	c.rule("R3.3", "operand parenthesisation guards evaluated over all level orderings; balanced; enclosing the operand")
 	c.floor(8)
 	ruleParenGuards(c, t)
+	if c.extractorProblems(t, "lexemes", "parser", "printer") {
+		return
+	}
+	g := c.grammar(t)
+	c.Tables["A2_parse_paths"] = g.dump(t)
+	c.rule("R3.4", "no token fusion between adjacent lexemes of the printed output (compact and pretty; every node type that can fill an operand slot, not only parsed shapes), separator guard credited per pair (= R1.2)")
+	c.floor(200)
+	ruleNoFusion(c, t, g)
+	c.rule("R3.5", "token-order agreement: the printer writes exactly the tokens each parse path consumed, in that order (= R1.1)")
+	c.floor(25)
+	ruleTokenOrder(c, t, g, "order")
 }
